@@ -8,10 +8,11 @@ RULES = {
     'C09.R1': 'one closed sign convention: evaluate_decision tests (mat·x - bias) <= 0 and sets bit i for a satisfied row; both path-polytope builders map '
               'label 1 -> (+mat,+bias), label 0 -> (-mat,-bias) (same factor on both fields, other labels panic) on the predicate of the edge\'s source node',
     'C09.R3': 'path-condition stack discipline of PolyhedraGen::next: |predicates| = depth of the reported node after every call (also after deep returns and skips)',
+    'C09.R5': 'the leaf flag tested by find_terminal means "no children" after every tree mutation (effect contracts shared with C12.R2)',
     'C09.R4': 'each node is reported once in depth-first order with correct depth and sibling counters, also after skips (DfsPre rules shared with C13)',
     'C09.R2': 'find_terminal pushes the label it follows and returns the node it reached; PolyhedraGen::next builds the predicate from the parent edge of the node it reports',
 }
-FLOORS = {'C09.R1': 4, 'C09.R2': 3, 'C09.R3': 1, 'C09.R4': 8}
+FLOORS = {'C09.R1': 4, 'C09.R2': 3, 'C09.R3': 1, 'C09.R4': 8, 'C09.R5': 10}
 EXPLANATION = 'The evaluator and the two region builders implement the same closed half-space per label, for every tree and input (exact arithmetic).'
 DOES_NOT_DECIDE = ('traversals started below the root with PolyhedraGen::with_root (the path above the start node is not reconstructed); disjoint interiors and coverage (set reasoning); '
                    'ordering/depth counters (C13)')
@@ -184,11 +185,16 @@ def run(ctx):
                     any(is_call(x, 'Tree::tree_node', 'Tree::node_value') and s(x[2][1]) == s(('field', label[1], '0')) for x in walk(node))
             if not ok_src:
                 problems.append('the predicate is not the one of the source node of the edge whose label selects the sign')
+        # what is recorded for the edge is that half-space and nothing else (no alternative value for particular predicates)
+        rec = [(bb, R.call_args(bb)) for bb, t in b.calls_to('Vec::push')]
+        rec = [(bb, a) for bb, a in rec if any(is_call(x, 'AffFuncBase::from_mats') for x in walk(a[1]))]
+        if len(rec) != 1 or not (is_call(rec[0][1][1], 'AffFuncBase::from_mats') and rec[0][1][1][3] == fm[0][0]):
+            problems.append('the region recorded for an edge is not always the signed predicate of its source node (%s)' % (fmt(rec[0][1][1])[:100] if rec else 'no push of the half-space'))
         if problems:
             for pz in problems:
                 ctx.bad('C09.R1', site, pz, b.where(fm[0][0]))
         else:
-            ctx.ok('C09.R1', site, 'label 1 -> (+mat,+bias), label 0 -> (-mat,-bias) of the edge\'s source predicate; one factor for both fields', b.where(fm[0][0]))
+            ctx.ok('C09.R1', site, 'label 1 -> (+mat,+bias), label 0 -> (-mat,-bias) of the edge\'s source predicate; one factor for both fields; recorded unconditionally', b.where(fm[0][0]))
     # ---------------- R2
     b = ctx.body('C09.R2', 'AffTree::find_terminal')
     if b is not None:
@@ -247,6 +253,14 @@ def run(ctx):
             ctx.insts.append(i)
     else:
         ctx.lost('C09.R4', 'impl TraversalMut for DfsPre')
+    # R5: find_terminal stops where `isleaf` is set, the region generators follow the child links: both agree only if the leaf flag says
+    # "no children" after every mutation (the effect contracts of the arena tree, shared with C12.R2)
+    from . import c12
+    sub = Ctx(ctx.facts, ctx.tier, ctx.prop)
+    c12.r2(sub)
+    for i in sub.insts:
+        i.rule = 'C09.R5'
+        ctx.insts.append(i)
     pg = ctx.body('C09.R4', 'PolyhedraGen::with_root')
     if pg is not None:
         Rp = Resolver(pg)
